@@ -36,6 +36,16 @@ readonly = z3.Function("memoryview_readonly", Val, BoolS)
 TEXT_CLASSES = (str, bytes, bytearray, memoryview)
 
 
+
+def _outer_loop_target(I, func):
+    """name of the loop variable of the function's outermost `for` (the candidate form of the input), read off the AST"""
+    import ast as _ast
+    _m, _c, node = I.src.find_def(func)
+    for st in _ast.walk(node):
+        if isinstance(st, _ast.For) and isinstance(st.target, _ast.Name):
+            return st.target.id
+    return "candidate"
+
 def is_cls(x, k):
     return cls_of(x) == cls_const(k)
 
@@ -375,7 +385,7 @@ def literal_relational(chk):
         I.hooks["equal"] = equal_hook
 
         def inv(I, path, env, k):
-            cand = to_val(env.lookup("candidate"))
+            cand = to_val(env.lookup(_outer_loop_target(I, func)))
             return [Q([IntS], lambda j: z3.Implies(z3.And(j >= 0, j < k), z3.Not(pyeq(vv(j), cand))), name="no-earlier-match")]
         I.loop_specs[(func, 1)] = LoopSpec("values", lambda I, p, e, k: None, inv)   # the inner loop over the literals
 
